@@ -14,6 +14,7 @@
 #include <functional>
 #include <sstream>
 #include <thread>
+#include <sys/wait.h>
 #include <unistd.h>
 #include <unordered_set>
 
@@ -176,7 +177,7 @@ struct Entries {
 };
 
 template <class G>
-void run(const Case &c, verif_result *out) {
+void runInner(const Case &c, verif_result *out) {
     typedef GT<G> T;
     GSpec s = parseGSpec(c, T::directed);
     std::string cls = c.get("class") + ":" + c.get("label", "none");
@@ -189,13 +190,14 @@ void run(const Case &c, verif_result *out) {
     StepFacts facts;
     try {
         buildGraph(s, "int", g, m);
-        r = verifyBuilt(g, m, observer);
-        if (r.empty()) {
+        // no observer is called before the threads start: a cache filled by a first single-threaded call would hide its race
+        {
             Entries<G> en(g);
             size_t E = en.list.size();
-            std::vector<uint64_t> base(E);
-            for (size_t k = 0; k < E; ++k)
-                base[k] = en.list[k].second(g, threads + 1);
+            // The concurrent phase runs FIRST, in a process that has not yet called any entry point (see run()):
+            // a lazily initialised static or cache is then first touched by unsynchronised threads.  The
+            // single-threaded baseline is computed afterwards.
+            std::vector<std::vector<uint64_t>> seen(threads, std::vector<uint64_t>(E * rounds, 0));
             std::atomic<int> ready{0};
             std::atomic<bool> go{false};
             std::vector<std::string> errors(threads);
@@ -215,11 +217,8 @@ void run(const Case &c, verif_result *out) {
                         std::this_thread::yield();
                     try {
                         for (int rd = 0; rd < rounds; ++rd)
-                            for (size_t k : order) {
-                                uint64_t d = en.list[k].second(cg, t);
-                                if (d != base[k] && errors[t].empty())
-                                    errors[t] = "thread " + std::to_string(t) + " round " + std::to_string(rd) + ": " + en.list[k].first + " differs from the single-threaded baseline";
-                            }
+                            for (size_t k : order)
+                                seen[t][rd * E + k] = en.list[k].second(cg, t);
                     } catch (const std::exception &ex) {
                         errors[t] = "thread " + std::to_string(t) + ": unexpected exception " + typeid(ex).name() + ": " + ex.what();
                     }
@@ -229,6 +228,14 @@ void run(const Case &c, verif_result *out) {
             go.store(true, std::memory_order_release);
             for (auto &x : th)
                 x.join();
+            std::vector<uint64_t> base(E);
+            for (size_t k = 0; k < E; ++k)
+                base[k] = en.list[k].second(g, threads + 1);
+            for (int t = 0; t < threads; ++t)
+                for (int rd = 0; rd < rounds; ++rd)
+                    for (size_t k = 0; k < E; ++k)
+                        if (seen[t][rd * E + k] != base[k] && errors[t].empty())
+                            errors[t] = "thread " + std::to_string(t) + " round " + std::to_string(rd) + ": " + en.list[k].first + " differs from the single-threaded result";
             for (auto &e : errors)
                 if (!e.empty() && r.empty()) {
                     observer = "baseline-mismatch";
@@ -239,6 +246,8 @@ void run(const Case &c, verif_result *out) {
                 observer = "graph-changed";
                 r = "the shared graph shows other observations after the concurrent reads";
             }
+            if (r.empty())
+                r = verifyBuilt(g, m, observer);
             facts.tag("threads_" + std::to_string(threads));
             out->work = (unsigned long long)threads * rounds * E;
         }
@@ -255,7 +264,63 @@ void run(const Case &c, verif_result *out) {
     out->work = work;
 }
 
+// Every case runs in a forked child, i.e. in a process in which no BaseGraph entry point has run yet;
+// a ThreadSanitizer report kills the child (halt_on_error) and is reported as the case's failure.
+template <class G>
+void run(const Case &c, verif_result *out) {
+    std::string cls = c.get("class") + ":" + c.get("label", "none");
+    int fds[2];
+    if (::pipe(fds) != 0) {
+        runInner<G>(c, out);
+        return;
+    }
+    std::fflush(nullptr);
+    pid_t pid = ::fork();
+    if (pid == 0) {
+        ::close(fds[0]);
+        static verif_result local;
+        std::memset(&local, 0, sizeof local);
+        runInner<G>(c, &local);
+        size_t off = 0;
+        const char *p = reinterpret_cast<const char *>(&local);
+        while (off < sizeof local) {
+            ssize_t w = ::write(fds[1], p + off, sizeof local - off);
+            if (w <= 0)
+                break;
+            off += (size_t)w;
+        }
+        ::close(fds[1]);
+        ::_exit(0);
+    }
+    ::close(fds[1]);
+    static verif_result got;
+    size_t off = 0;
+    char *p = reinterpret_cast<char *>(&got);
+    while (off < sizeof got) {
+        ssize_t r = ::read(fds[0], p + off, sizeof got - off);
+        if (r <= 0)
+            break;
+        off += (size_t)r;
+    }
+    ::close(fds[0]);
+    int status = 0;
+    ::waitpid(pid, &status, 0);
+    if (off == sizeof got && WIFEXITED(status) && WEXITSTATUS(status) == 0) {
+        *out = got;
+        return;
+    }
+    std::string how = WIFSIGNALED(status) ? "killed by signal " + std::to_string(WTERMSIG(status)) : "exit status " + std::to_string(WEXITSTATUS(status));
+    bool tsan = WIFEXITED(status) && WEXITSTATUS(status) == 95;
+    fillResult(out, 1, false, 0, cls + "|concurrent|" + (tsan ? "thread-sanitizer-report" : "child-died"), "",
+               "property C18 class " + cls + ": the process running the concurrent readers ended abnormally (" + how + ")" +
+                   (tsan ? ": ThreadSanitizer reported a data race (report on stderr)" : ""));
+}
+
 } // namespace
+
+#if CC_GROUP == 0
+extern "C" const char *__tsan_default_options() { return "halt_on_error=1:exitcode=95:report_signal_unsafe=0"; }
+#endif
 
 #if CC_GROUP == 0
 VERIF_REGISTER(DS_none, DirectedGraph) VERIF_REGISTER(US_none, UndirectedGraph)
